@@ -479,7 +479,10 @@ impl Expression {
                 let signed = y.signed() && z.signed();
                 let width = y.width().max(z.width()).max(context_width);
 
-                let ret = if x.to_usize().unwrap_or(0) == 0 { z } else { y };
+                // `to_usize` is None for every condition wider than 64 bits, so
+                // test the payload itself (an x/z condition still selects `z`).
+                let cond_true = !x.is_xz() && x.payload().bits() != 0;
+                let ret = if cond_true { y } else { z };
                 let ret = ret.expand(width, signed).into_owned();
                 Some(ret)
             }
